@@ -50,6 +50,7 @@ type FuncContract struct {
 	File     string
 	Line     int
 	Implements string  // key of the iface contract this function must also satisfy
+	Holds    []string // lock keys (e.g. p:h.muxReg) the function is documented to be called with
 	Spawns   []*Clause // spawn effects for closures started with `go`
 	AtCalls  map[string][]*Clause // callee name -> obligations at every call of that callee inside this function
 	Used     bool
@@ -125,6 +126,7 @@ type GuardDecl struct {
 	By     string   // qualified T.m
 	In     []string // function keys allowed to write (initonly)
 	Pkg    string
+	Owner  bool // `by owner T.m`: the mutex of the object owning the container the guarded objects live in
 }
 
 type Contracts struct {
@@ -454,6 +456,13 @@ func (cs *Contracts) loadContractFile(path, pkgPath string, short map[string]str
 				}
 				curF.Modifies = append(curF.Modifies, me)
 			}
+		case "holds":
+			if curF == nil {
+				return fail("holds outside a function contract")
+			}
+			for _, item := range splitTop(rest) {
+				curF.Holds = append(curF.Holds, "p:"+item)
+			}
 		case "atcall":
 			if curF == nil {
 				return fail("atcall outside a function contract")
@@ -720,11 +729,38 @@ func (cs *Contracts) loadContractFile(path, pkgPath string, short map[string]str
 			}
 			tq := cs.qualify(m[2], pkgPath, short)
 			cs.TypeInvs[tq] = &TypeInv{Type: tq, Var: m[1], E: e, Src: m[3], Pkg: pkgPath}
+		case "guardedcall":
+			// guardedcall (*websocket.Conn).WriteMessage, ... by WebsocketConnection.muxConWrite
+			gd := &GuardDecl{Kind: "guardedcall", Pkg: pkgPath}
+			i := strings.Index(rest, " by ")
+			if i < 0 {
+				return fail("guardedcall F1, F2 by T.m")
+			}
+			by := strings.TrimSpace(rest[i+4:])
+			k := strings.LastIndex(by, ".")
+			gd.By = cs.qualify(by[:k], pkgPath, short) + "." + by[k+1:]
+			for _, f := range splitTop(rest[:i]) {
+				// (*pkg.T).M with the package short name resolved
+				m := regexp.MustCompile(`^\(\*?([\w./]+)\)\.(\w+)$`).FindStringSubmatch(f)
+				if m == nil {
+					return fail("guardedcall entries must be methods: %q", f)
+				}
+				star := ""
+				if strings.HasPrefix(f, "(*") {
+					star = "*"
+				}
+				gd.Fields = append(gd.Fields, "("+star+cs.qualify(m[1], pkgPath, short)+")."+m[2])
+			}
+			cs.Guards = append(cs.Guards, gd)
 		case "immutable", "guarded", "initonly", "noclaim":
 			gd := &GuardDecl{Kind: word, Pkg: pkgPath}
 			body := rest
 			if i := strings.Index(body, " by "); i >= 0 {
 				by := strings.TrimSpace(body[i+4:])
+				if strings.HasPrefix(by, "owner ") {
+					gd.Owner = true
+					by = strings.TrimSpace(by[6:])
+				}
 				k := strings.LastIndex(by, ".")
 				gd.By = cs.qualify(by[:k], pkgPath, short) + "." + by[k+1:]
 				body = body[:i]
